@@ -663,3 +663,643 @@ class AssertRange(Contract):
 
     def counts(self, c, x, lo, hi, err=None):
         return addc(n_pvb(c, 2 * c.bitlength), n_ac(c, 2))
+
+
+# ---------------------------------------------------------------------------
+# linear operations (no events): verified for value, invariant and wire expression
+# ---------------------------------------------------------------------------
+from pyvc.sym import idivmod, fmul_cancel, fmul_assoc, band_bits
+
+
+class _Linear(Contract):
+    spec = None
+    arity = 2
+
+    def configs(self, tier):
+        return [dict(mode=m, kind=k) for m in ("plain", "g1", "g0") for k in (("ss", "sk") if self.arity == 2 else ("s",))]
+
+    def setup(self, c, cfg):
+        apply_mode(c, cfg["mode"])
+        fn = getattr(c.LinComb, self.name.rsplit(".", 1)[1])
+        if self.arity == 1:
+            return fn, (c.operand("x"),), {}
+        return fn, (c.operand("x"), _other_operand(c, cfg["kind"])), {}
+
+    def use_stub(self, c, *a):
+        return False
+
+    def post(self, c, r, x, y=None):
+        xv = c.v(x)
+        if y is None:
+            sv, sa = self.spec(xv, None), self.spec(c.eva(x), None)
+        else:
+            sv = self.spec(xv, _ov(c, y))
+            sa = self.spec(c.eva(x), _oa(c, y))      # a plain int enters through ConstVal: the constant-one wire
+        return {"V.value": Eq(c.v(r), sv), "V.inv": c.inv(r), "S.linear": c.eva(r) == sa % c.p}
+
+    def counts(self, c, *a):
+        return (0, 0, 0)
+
+
+@register
+class Add(_Linear):
+    name = "pysnark.runtime:LinComb.__add__"
+    spec = staticmethod(lambda x, y: x + y)
+
+
+
+@register
+class Sub(_Linear):
+    name = "pysnark.runtime:LinComb.__sub__"
+    spec = staticmethod(lambda x, y: x - y)
+
+
+@register
+class RSub(_Linear):
+    name = "pysnark.runtime:LinComb.__rsub__"
+    spec = staticmethod(lambda x, y: y - x)
+
+    def configs(self, tier):
+        return [dict(mode=m, kind="sk") for m in ("plain", "g1", "g0")]
+
+
+@register
+class Neg(_Linear):
+    name = "pysnark.runtime:LinComb.__neg__"
+    arity = 1
+    spec = staticmethod(lambda x, y: -x)
+
+
+class _Alloc(Contract):
+    """PubVal / PrivVal / ConstVal: the allocation primitives."""
+    kind = None
+    witness_args = (0,)
+
+    def configs(self, tier):
+        return [dict(mode=m) for m in ("plain", "g0")]
+
+    def setup(self, c, cfg):
+        apply_mode(c, cfg["mode"])
+        return getattr(c.rt, self.kind), (SymInt(z3.Int("s_v")),), {}
+
+    def use_stub(self, c, *a):
+        return False
+
+    def post(self, c, r, val):
+        d = {"V.value": Eq(c.v(r), val), "V.inv": c.inv(r), "V.type": isinstance(r, c.LinComb)}
+        return d
+
+    def counts(self, c, val):
+        return {"PubVal": (1, 0, 0), "PrivVal": (0, 1, 0), "ConstVal": (0, 0, 0)}[self.kind]
+
+
+@register
+class PubValC(_Alloc):
+    name = "pysnark.runtime:PubVal"
+    kind = "PubVal"
+
+
+@register
+class PrivValC(_Alloc):
+    name = "pysnark.runtime:PrivVal"
+    kind = "PrivVal"
+
+
+@register
+class ConstValC(_Alloc):
+    name = "pysnark.runtime:ConstVal"
+    kind = "ConstVal"
+    witness_args = ()
+
+    def post(self, c, r, val):
+        d = super().post(c, r, val)
+        d["S.const"] = c.eva(r) == term(val) % c.p
+        return d
+
+
+@register
+class Val(Contract):
+    """x.val(): one public output tied to x by an equality constraint; returns the value."""
+    name = "pysnark.runtime:LinComb.val"
+
+    def configs(self, tier):
+        return [dict(mode=m) for m in MODES]
+
+    def setup(self, c, cfg):
+        apply_mode(c, cfg["mode"])
+        return c.LinComb.val, (c.operand("x"),), {}
+
+    def result(self, c, x):
+        return x.value
+
+    def post(self, c, r, x):
+        d = {"V.value": Eq(r, c.v(x))}
+        pubs = [e.var for e in c.g.trace if isinstance(e, __import__("pyvc.ghost", fromlist=["Alloc"]).Alloc) and e.var.kind == "pub"]
+        if pubs:       # body verification: the output wire is visible
+            o = pubs[-1]
+            d["V.output_value"] = modeq(o.h, c.v(x), c.p)
+            d["S.tied"] = Implies(on(c), o.a == c.eva(x))
+        return d
+
+    def counts(self, c, x):
+        return addc((1, 0, 0), n_ac(c))
+
+
+# ---------------------------------------------------------------------------
+# division
+# ---------------------------------------------------------------------------
+
+@register
+class TrueDiv(Contract):
+    """x / y: exact division; raises unless y != 0 and y divides x."""
+    name = "pysnark.runtime:LinComb.__truediv__"
+
+    def configs(self, tier):
+        return [dict(mode=m, kind=k) for m in MODES for k in ("ss", "sk")]
+
+    def setup(self, c, cfg):
+        apply_mode(c, cfg["mode"])
+        return c.LinComb.__truediv__, (c.operand("x"), _other_operand(c, cfg["kind"])), {}
+
+    def use_stub(self, c, x, y):
+        return not isinstance(y, int)
+
+    def _exact(self, c, x, y):
+        xv, yv = c.v(x), _ov(c, y)
+        q, m = idivmod(xv, yv)
+        return And(isg(c), m == 0), q
+
+    def raises(self, c, x, y):
+        xv, yv = c.v(x), _ov(c, y)
+        out = [(ValueError, yv == 0)]
+        exact, q = self._exact(c, x, y)
+        out.append((ValueError, And(yv != 0, Not(exact), Not(ie(c)))))
+        if isinstance(y, int):
+            out.append((ZeroDivisionError, And(yv != 0, yv % c.p == 0)))
+        return out
+
+    def result(self, c, x, y):
+        exact, q = self._exact(c, x, y)
+        return c.fresh_lincomb(lift(If(exact, q, 0)), "quot")
+
+    def post(self, c, r, x, y):
+        exact, q = self._exact(c, x, y)
+        xa, ya, ra = c.eva(x), _oa(c, y), c.eva(r)
+        fmul_cancel(ya, ra, c.v(r) % c.p)
+        if isinstance(y, int):
+            # lemmas: inv*(k*q) = (inv*k)*q  and  k*(inv*x) = (k*inv)*x   (associativity in F_p)
+            inv = term(c.g.fieldinverse(y))
+            fmul_assoc(inv, ya, q % c.p)
+            fmul_assoc(ya, inv, xa)
+        d = {
+            "V.value": Implies(exact, Eq(c.v(r), q)),
+            "V.inv": c.inv(r),
+        }
+        if isinstance(y, int):
+            d["S.quot"] = fmul(ya, ra) == xa
+        else:
+            d["S.quot"] = Implies(on(c), fmul(ya, ra) == xa)
+            d["S.unique"] = Implies(And(on(c), _tied(c, x, y), exact, ya != 0), ra == c.v(r) % c.p)
+            d["canary.S.unique"] = Implies(And(on(c), _tied(c, x, y), exact, ya != 0), ra == (c.v(r) + 1) % c.p)
+        return d
+
+    def counts(self, c, x, y):
+        return (0, 0, 0) if isinstance(y, int) else addc((0, 1, 0), n_ac(c))
+
+
+def _divmod_spec(c, x, d):
+    xv, dv = c.v(x), _ov(c, d)
+    return idivmod(xv, dv)
+
+
+@register
+class DivMod(Contract):
+    """divmod(x, d): floor quotient and remainder, 0 <= r < d."""
+    name = "pysnark.runtime:LinComb.__divmod__"
+
+    def configs(self, tier):
+        out = []
+        for n in ((3,) if tier == "quick" else (2, 8, 16)):
+            for m in MODES:
+                for k in ("ss", "sk"):
+                    out.append(dict(mode=m, kind=k, bits=n))
+        return out
+
+    def setup(self, c, cfg):
+        apply_mode(c, cfg["mode"], bitlength=cfg["bits"])
+        return c.LinComb.__divmod__, (c.operand("x"), _other_operand(c, cfg["kind"], "d")), {}
+
+    def pre(self, c, x, d):
+        return [(1 << (c.bitlength + 1)) < c.p]
+
+    def raises(self, c, x, d):
+        xv, dv = c.v(x), _ov(c, d)
+        q, m = idivmod(xv, dv)
+        n = c.bitlength
+        bad = Or(m >= dv, dv - m - 1 >= (1 << n), m < 0, m >= (1 << n))
+        return [(ValueError, dv == 0), (AssertionError, And(dv != 0, Not(ie(c)), bad))]
+
+    def result(self, c, x, d):
+        q, m = _divmod_spec(c, x, d)
+        return (c.fresh_lincomb(lift(q), "quo"), c.fresh_lincomb(lift(m), "rem"))
+
+    def post(self, c, r, x, d):
+        if not (isinstance(r, tuple) and len(r) == 2):
+            return {"V.shape": False}
+        q, m = _divmod_spec(c, x, d)
+        quo, rem = r
+        n = c.bitlength
+        xa, da, qa, ma = c.eva(x), _oa(c, d), c.eva(quo), c.eva(rem)
+        if isinstance(d, int) and guarded(c):
+            da = imul(term(d), c.eva(c.rt.LinComb.ONE)) % c.p
+        valid = And(_tied(c, x, d), _ov(c, d) > 0, _ov(c, d) < (1 << n), c.v(x) >= 0, c.v(x) < (1 << n))
+        return {
+            "V.shape": True,
+            "V.quotient": Eq(c.v(quo), q),
+            "V.remainder": Eq(c.v(rem), m),
+            "V.inv": And(c.inv(quo), c.inv(rem)),
+            "S.identity": Implies(on(c), fmul(qa, da) == (xa - ma) % c.p),
+            "S.rem_range": Implies(on(c), And(ma < (1 << n), (da - ma - 1) % c.p < (1 << n))),
+            "S.unique_quotient": Implies(And(on(c), valid), qa == c.v(quo) % c.p),
+            "S.unique_remainder": Implies(And(on(c), valid), ma == c.v(rem) % c.p),
+        }
+
+    def key(self, c, x, d):
+        return (c.bitlength,)
+
+    def counts(self, c, x, d):
+        n = c.bitlength
+        # quo, product, rem ; identity constraint ; rem < d ; rem >= 0
+        return addc((0, 3, 1), n_ac(c), n_pvb(c, 2 * n), n_ac(c, 2))
+
+
+class _DivWrap(Contract):
+    idx = 0
+
+    def configs(self, tier):
+        return [dict(mode=m, kind=k, bits=3) for m in ("plain", "g0") for k in ("ss", "sk")]
+
+    def setup(self, c, cfg):
+        apply_mode(c, cfg["mode"], bitlength=cfg["bits"])
+        return getattr(c.LinComb, self.name.rsplit(".", 1)[1]), (c.operand("x"), _other_operand(c, cfg["kind"], "d")), {}
+
+    def use_stub(self, c, *a):
+        return False
+
+    def raises(self, c, x, d):
+        return REG["pysnark.runtime:LinComb.__divmod__"].raises(c, x, d)
+
+    def post(self, c, r, x, d):
+        q, m = _divmod_spec(c, x, d)
+        return {"V.value": Eq(c.v(r), (q, m)[self.idx]), "V.inv": c.inv(r)}
+
+    def counts(self, c, x, d):
+        return REG["pysnark.runtime:LinComb.__divmod__"].counts(c, x, d)
+
+
+from pyvc.contract import REGISTRY as REG
+
+
+@register
+class FloorDiv(_DivWrap):
+    name = "pysnark.runtime:LinComb.__floordiv__"
+    idx = 0
+
+
+@register
+class Mod(_DivWrap):
+    name = "pysnark.runtime:LinComb.__mod__"
+    idx = 1
+
+
+# ---------------------------------------------------------------------------
+# powers, shifts, bitwise, abs
+# ---------------------------------------------------------------------------
+
+def _ipow(x, k):
+    """x**k with the nesting the spec fixes: x * x**(k-1)"""
+    r = None
+    for _ in range(k):
+        r = x if r is None else imul(x, r)
+    return Z(1) if r is None else r
+
+
+@register
+class PowInt(Contract):
+    """x ** k for a plain int k >= 0 (k-1 constraints); negative k raises."""
+    name = "pysnark.runtime:LinComb.__pow__"
+
+    def configs(self, tier):
+        ks = (0, 1, 2, 3, 5, -1) if tier == "quick" else (0, 1, 2, 3, 4, 5, 8, -1, -2)
+        return [dict(mode=m, k=k, **({"raises_only": True} if k < 0 else {})) for m in MODES for k in ks]
+
+    def setup(self, c, cfg):
+        apply_mode(c, cfg["mode"])
+        return c.LinComb.__pow__, (c.operand("x"), cfg["k"]), {}
+
+    def use_stub(self, c, x, k, mod=None):
+        return isinstance(k, int)      # secret exponents: see PowSecret
+
+    def raises(self, c, x, k, mod=None):
+        if mod is not None:
+            return [(ValueError, True)]
+        return [(ValueError, k < 0)]
+
+    def _one(self, c):
+        return c.v(c.rt.LinComb.ONE)
+
+    def result(self, c, x, k, mod=None):
+        if k == 0:
+            return c.rt.LinComb.ONE
+        if k == 1:
+            return x
+        return c.fresh_lincomb(lift(_ipow(c.v(x), k)), "pow")
+
+    def post(self, c, r, x, k, mod=None):
+        d = {
+            "V.value": Implies(isg(c), Eq(c.v(r), _ipow(c.v(x), k))),
+            "V.inv": c.inv(r),
+        }
+        xa = c.eva(x)
+        fa = None
+        for _ in range(k):
+            fa = xa if fa is None else fmul(xa, fa)
+        if k >= 1:
+            d["S.power"] = c.eva(r) == fa
+        else:
+            d["S.power"] = Implies(on(c), c.eva(r) == 1)
+        return d
+
+    def key(self, c, x, k, mod=None):
+        return (k,)
+
+    def counts(self, c, x, k, mod=None):
+        return (0, max(k - 1, 0), max(k - 1, 0))
+
+
+@register
+class LShift(Contract):
+    name = "pysnark.runtime:LinComb.__lshift__"
+
+    def configs(self, tier):
+        return [dict(mode=m, k=k, **({"raises_only": True} if k < 0 else {})) for m in ("plain", "g0") for k in (0, 1, 5, -1)]
+
+    def setup(self, c, cfg):
+        apply_mode(c, cfg["mode"])
+        return c.LinComb.__lshift__, (c.operand("x"), cfg["k"]), {}
+
+    def use_stub(self, c, x, k):
+        return False
+
+    def raises(self, c, x, k):
+        return [(ValueError, k < 0)]
+
+    def post(self, c, r, x, k):
+        return {"V.value": Eq(c.v(r), c.v(x) * (1 << k)), "V.inv": c.inv(r),
+                "S.linear": c.eva(r) == ((1 << k) * c.eva(x)) % c.p}
+
+    def counts(self, c, x, k):
+        return (0, 0, 0)
+
+
+@register
+class RShift(Contract):
+    """x >> k for a plain int k: floor(x / 2^k) for 0 <= x < 2^bitlength; negative k raises."""
+    name = "pysnark.runtime:LinComb.__rshift__"
+
+    def configs(self, tier):
+        n = 4
+        return [dict(mode=m, k=k, bits=n) for m in MODES for k in (0, 1, 3, 4, 6, -1)]
+
+    def setup(self, c, cfg):
+        apply_mode(c, cfg["mode"], bitlength=cfg["bits"])
+        return c.LinComb.__rshift__, (c.operand("x"), cfg["k"]), {}
+
+    def pre(self, c, x, k):
+        return [(1 << c.bitlength) < c.p]
+
+    def use_stub(self, c, x, k):
+        return isinstance(k, int)
+
+    def raises(self, c, x, k):
+        v = c.v(x)
+        return [(ValueError, k < 0),
+                (AssertionError, And(Not(ie(c)), Or(v < 0, v >= (1 << c.bitlength))))]
+
+    def result(self, c, x, k):
+        from pyvc.sym import shr
+        if k >= c.bitlength or k < 0:
+            return 0
+        return c.fresh_lincomb(lift(shr(c.v(x), k) - (1 << (c.bitlength - k)) * shr(c.v(x), c.bitlength)), "shr")
+
+    def post(self, c, r, x, k):
+        from pyvc.sym import shr
+        v = c.v(x)
+        n = c.bitlength
+        valid = And(v >= 0, v < (1 << n))
+        if k < 0:
+            return {}          # Python raises ValueError here: the R facet carries that clause
+        if isinstance(r, int) and not isinstance(r, SymInt):
+            return {"V.value": Implies(valid, Eq(r, shr(v, k))), "V.kind": k >= n}
+        return {
+            "V.value": Implies(valid, Eq(c.v(r), shr(v, k))),
+            "V.inv": c.inv(r),
+            "S.unique": Implies(And(on(c), c.tied(x), valid), c.eva(r) == shr(v, k)),
+        }
+
+    def key(self, c, x, k):
+        return (c.bitlength, k)
+
+    def counts(self, c, x, k):
+        return addc(n_pvb(c, c.bitlength), n_ac(c))
+
+
+class _Bitwise(Contract):
+    """x <op> y on 0 <= x,y < 2^bitlength."""
+    bitop = None
+
+    def configs(self, tier):
+        out = []
+        for n in ((3,) if tier == "quick" else (2, 8)):
+            for m in MODES:
+                for k in ("ss", "sk"):
+                    out.append(dict(mode=m, kind=k, bits=n))
+        return out
+
+    def setup(self, c, cfg):
+        apply_mode(c, cfg["mode"], bitlength=cfg["bits"])
+        y = c.operand("y") if cfg["kind"] == "ss" else 5          # int operand: concrete (a width-free symbolic & is not encodable)
+        return getattr(c.LinComb, self.name.rsplit(".", 1)[1]), (c.operand("x"), y), {}
+
+    def pre(self, c, x, y):
+        return [(1 << c.bitlength) < c.p]
+
+    def raises(self, c, x, y):
+        if isinstance(y, int):
+            return []
+        n = c.bitlength
+        xv, yv = c.v(x), c.v(y)
+        return [(AssertionError, And(Not(ie(c)), Or(xv < 0, xv >= (1 << n), yv < 0, yv >= (1 << n))))]
+
+    def spec(self, c, xv, yv):
+        from pyvc.sym import bit
+        n = c.bitlength
+        return z3.Sum([Z(0)] + [(1 << i) * self.bitop(bit(xv, i), bit(yv, i)) for i in range(n)])
+
+    def result(self, c, x, y):
+        return c.fresh_lincomb(lift(self.spec(c, c.v(x), _ov(c, y))), "bw")
+
+    def post(self, c, r, x, y):
+        n = c.bitlength
+        xv, yv = c.v(x), _ov(c, y)
+        valid = And(xv >= 0, xv < (1 << n), yv >= 0, yv < (1 << n))
+        return {
+            "V.value": Implies(valid, Eq(c.v(r), self.spec(c, xv, yv))),
+            "V.inv": c.inv(r),
+            "S.unique": Implies(And(on(c), _tied(c, x, y), valid), c.eva(r) == c.v(r) % c.p),
+        }
+
+    def key(self, c, x, y):
+        return (c.bitlength,)
+
+    def counts(self, c, x, y):
+        n = c.bitlength
+        if isinstance(y, int):
+            return (0, 1, 0)
+        return addc(n_pvb(c, 2 * n), n_ac(c, 2), (0, n, n))
+
+
+def _b_and(a, b):
+    return z3.If(z3.And(a == 1, b == 1), Z(1), Z(0))
+
+
+def _b_or(a, b):
+    return z3.If(z3.Or(a == 1, b == 1), Z(1), Z(0))
+
+
+def _b_xor(a, b):
+    return z3.If(a != b, Z(1), Z(0))
+
+
+@register
+class AndOp(_Bitwise):
+    name = "pysnark.runtime:LinComb.__and__"
+    bitop = staticmethod(_b_and)
+
+
+@register
+class OrOp(_Bitwise):
+    name = "pysnark.runtime:LinComb.__or__"
+    bitop = staticmethod(_b_or)
+
+
+@register
+class XorOp(_Bitwise):
+    name = "pysnark.runtime:LinComb.__xor__"
+    bitop = staticmethod(_b_xor)
+
+
+@register
+class Invert(Contract):
+    """~x : Python's -x-1."""
+    name = "pysnark.runtime:LinComb.__invert__"
+
+    def configs(self, tier):
+        return [dict(mode=m, bits=3) for m in MODES]
+
+    def setup(self, c, cfg):
+        apply_mode(c, cfg["mode"], bitlength=cfg["bits"])
+        return c.LinComb.__invert__, (c.operand("x"),), {}
+
+    def pre(self, c, x):
+        return [(1 << c.bitlength) < c.p]
+
+    def raises(self, c, x):
+        v = c.v(x)
+        return [(AssertionError, And(Not(ie(c)), Or(v < 0, v >= (1 << c.bitlength))))]
+
+    def result(self, c, x):
+        return c.fresh_lincomb(lift((1 << c.bitlength) - 1 - c.v(x)), "inv")
+
+    def post(self, c, r, x):
+        v = c.v(x)
+        valid = And(v >= 0, v < (1 << c.bitlength))
+        return {
+            "V.python": Implies(valid, Eq(c.v(r), -v - 1)),
+            "V.masked": Implies(valid, Eq(c.v(r), (1 << c.bitlength) - 1 - v)),
+            "V.inv": c.inv(r),
+            "S.unique": Implies(And(on(c), c.tied(x), valid), c.eva(r) == c.v(r) % c.p),
+        }
+
+    def key(self, c, x):
+        return (c.bitlength,)
+
+    def counts(self, c, x):
+        return addc(n_pvb(c, c.bitlength), n_ac(c))
+
+
+@register
+class Abs(Contract):
+    name = "pysnark.runtime:LinComb.__abs__"
+    modules = ("pysnark.runtime", "pysnark.boolean", "pysnark.fixedpoint", "pysnark.branching")
+
+    def configs(self, tier):
+        return [dict(mode=m, bits=3) for m in MODES]
+
+    def setup(self, c, cfg):
+        apply_mode(c, cfg["mode"], bitlength=cfg["bits"])
+        return c.LinComb.__abs__, (c.operand("x"),), {}
+
+    def pre(self, c, x):
+        return [(1 << (c.bitlength + 1)) < c.p]
+
+    def raises(self, c, x):
+        return [(ValueError, And(Not(And(isg(c), in_range(c.v(x), c.bitlength))), Not(ie(c))))]
+
+    def result(self, c, x):
+        v = c.v(x)
+        ok = And(isg(c), in_range(v, c.bitlength))
+        return c.fresh_lincomb(lift(If(And(ok, v >= 0), v, -v)), "abs")
+
+    def post(self, c, r, x):
+        v = c.v(x)
+        ok = And(isg(c), in_range(v, c.bitlength))
+        return {
+            "V.value": Implies(ok, Eq(c.v(r), If(v >= 0, v, -v))),
+            "V.inv": c.inv(r),
+            "S.unique": Implies(And(on(c), c.tied(x), ok), c.eva(r) == c.v(r) % c.p),
+        }
+
+    def key(self, c, x):
+        return (c.bitlength,)
+
+    def counts(self, c, x):
+        return addc(n_pvb(c, c.bitlength + 1), n_ac(c), (0, 1, 1))
+
+
+@register
+class IfElse(Contract):
+    """cond.if_else(a, b) on a LinComb condition (not range-checked): b + cond*(a-b)."""
+    name = "pysnark.runtime:LinComb.if_else"
+
+    def configs(self, tier):
+        return [dict(mode=m) for m in ("plain", "g0")]
+
+    def setup(self, c, cfg):
+        apply_mode(c, cfg["mode"])
+        cnd = c.operand("c")
+        cur().assume(is01(term(cnd.value)))
+        return c.LinComb.if_else, (cnd, c.operand("t"), c.operand("f")), {}
+
+    def use_stub(self, c, *a):
+        return False
+
+    def post(self, c, r, cnd, t, f):
+        return {
+            "V.value": Eq(c.v(r), If(c.v(cnd) == 1, c.v(t), c.v(f))),
+            "V.inv": c.inv(r),
+            "S.select": Implies(is01(c.eva(cnd)), c.eva(r) == If(c.eva(cnd) == 1, c.eva(t), c.eva(f))),
+        }
+
+    def counts(self, c, cnd, t, f):
+        return (0, 1, 1)
